@@ -155,15 +155,18 @@ class Fixture:
 
 
 _FIX = {}
+_FIX_MAX = 8
 
 
 def fixture(spec_dict, key=None, fresh=False):
     """Cached per process; a contaminated fixture is discarded and rebuilt."""
     k = key or json.dumps(spec_dict, sort_keys=True)
-    fx = _FIX.get(k)
+    fx = _FIX.pop(k, None)
     if fresh or fx is None or not fx.intact():
         fx = Fixture(spec_dict)
-        _FIX[k] = fx
+    _FIX[k] = fx                      # most recently used last
+    while len(_FIX) > _FIX_MAX:       # a language graph of a 120-step language weighs hundreds of MB
+        _FIX.pop(next(iter(_FIX)))
     return fx
 
 
